@@ -1,6 +1,8 @@
 import OVM.Refine.Inv
 import OVM.Refine.DeleteFrames
 import OVM.Refine.Len
+import OVM.Refine.CacheDelete
+import OVM.Refine.CacheSwap
 /-
   C02 — deletion removes exactly the entity's upward closure; survivors are unchanged.
   Proved here:
@@ -104,5 +106,103 @@ example : corr1 2 5 = 4 ∧ corr1 2 1 = 1 ∧ corr2 5 9 = 7 ∧ corr2 5 4 = 4 :=
 example :
     let k : Kernel := { nV := 4, cells := [[0, 2], [1, 3]], cDel := [false, false], fBU := false, eBU := false, vBU := false }
     (k.deleteCell 0).cDel = [true, false] ∧ (k.deleteCell 0).cells = k.cells ∧ (k.deleteCell 0).nLogC = 1 := by decide
+
+/-! ------------------------------------------------------------------------------------------
+    Rung B, deletion side: deletion keeps the cache invariant (`WF = LenInv ∧ RangeInv ∧ CacheInv`,
+    OVM/Refine/CacheDelete.lean).
+    ------------------------------------------------------------------------------------------ -/
+
+/-- **deferred deletion keeps the cache invariant**: in deferred mode every `delete_cell`,
+    `delete_face`, `delete_edge`, `delete_vertex` (whole upward closure, any handle) maps a
+    well-formed state in which no halfface lies in two live cells (`oneCell`, C01's stated
+    precondition) to such a state again.  `oneCell` is needed by `delete_cell_core` only: it
+    merely clears `incident_cell_per_hf_[hf]` (cc:1385-1388), which is right exactly when no
+    second live cell uses `hf`. -/
+theorem deferred_deletion_keeps_cache_invariant (k : Kernel) (hd : k.deferred = true) (hw : WF k)
+    (h1 : k.oneCell = true) (x : Nat) :
+    (WF (k.deleteCell x) ∧ (k.deleteCell x).oneCell = true) ∧
+    (WF (k.deleteFace x) ∧ (k.deleteFace x).oneCell = true) ∧
+    (WF (k.deleteEdge x) ∧ (k.deleteEdge x).oneCell = true) ∧
+    (WF (k.deleteVertex x) ∧ (k.deleteVertex x).oneCell = true) :=
+  ⟨(defInv_deleteCell x ⟨hd, hw, h1⟩).2, (defInv_deleteFace x ⟨hd, hw, h1⟩).2,
+   (defInv_deleteEdge x ⟨hd, hw, h1⟩).2, (defInv_deleteVertex x ⟨hd, hw, h1⟩).2⟩
+
+/-- every history of deferred deletions from a well-formed `oneCell` state stays well-formed, so
+    (C01) every upward query keeps answering with the brute-force scan -/
+theorem deferred_deletion_history_keeps_cache_invariant (k : Kernel) (hd : k.deferred = true) (hw : WF k)
+    (h1 : k.oneCell = true) (ops : List Op)
+    (hops : ∀ op ∈ ops, ∃ x, op = .deleteCell x ∨ op = .deleteFace x ∨ op = .deleteEdge x ∨ op = .deleteVertex x) :
+    WF (k.run ops) ∧ CacheInv (k.run ops) := by
+  have : DefInv (k.run ops) := by
+    have hi : DefInv k := ⟨hd, hw, h1⟩
+    clear hd hw h1
+    induction ops generalizing k with
+    | nil => exact hi
+    | cons op t ih =>
+      simp only [run, List.foldl_cons]
+      apply ih _ (fun o ho => hops o (by simp [ho]))
+      obtain ⟨x, hx⟩ := hops op (by simp)
+      rcases hx with rfl | rfl | rfl | rfl
+      · exact defInv_deleteCell x hi
+      · exact defInv_deleteFace x hi
+      · exact defInv_deleteEdge x hi
+      · exact defInv_deleteVertex x hi
+  exact ⟨this.2.1, this.2.1.cache⟩
+
+/-- non-vacuity: the tetrahedron with all caches enabled satisfies the hypotheses; deleting vertex 0
+    flags the cell, three faces, three edges and the vertex, and the caches still equal the scans
+    (evaluated by the executable form of the invariant as a cross-check of the theorem) -/
+example : tetK.deferred = true ∧ WF tetK ∧ tetK.oneCell = true ∧
+    (tetK.deleteVertex 0).cDel = [true] ∧ (tetK.deleteVertex 0).fDel = [true, true, false, true] ∧
+    (tetK.deleteVertex 0).eDel = [true, false, true, true, false, false] ∧
+    (tetK.deleteVertex 0).incCell = [none, none, none, none, none, none, none, none] ∧
+    (tetK.deleteVertex 0).cacheInvB = true :=
+  ⟨rfl, wf_tetK, by decide, by decide, by decide, by decide, by decide, by decide⟩
+
+/-- **`swap_cell_indices` and `swap_vertex_indices` keep the cache invariant** for in-range handles
+    (deleted or not), in the cache-guided and in the linear-scan variants.  `swap_cell_indices`
+    additionally needs and keeps C01's `oneCell`.
+    `_partial`: the same statement for `swap_edge_indices` / `swap_face_indices` is not proved yet
+    (LenInv for them is `lenInv_swapEdge/Face`; what remains is listed at the end of
+    OVM/Refine/CacheSwap.lean). -/
+theorem swaps_keep_cache_invariant_partial (k : Kernel) (hw : WF k) (a b : Nat) :
+    (a < k.nV → b < k.nV → WF (k.swapVertex a b)) ∧
+    (a < k.nC → b < k.nC → k.oneCell = true → WF (k.swapCell a b) ∧ (k.swapCell a b).oneCell = true) :=
+  ⟨fun ha hb => wf_swapVertex ha hb hw,
+   fun ha hb h1 => ⟨wf_swapCell ha hb hw h1, oneCell_swapCell ha hb hw.len.cDel h1⟩⟩
+
+/-- non-vacuity: on the tetrahedron (all caches enabled) swapping vertices 0 and 3 relabels four
+    edge definitions and exchanges two cache slots; the executable invariant agrees -/
+example : WF tetK ∧ (0 : Nat) < tetK.nV ∧ 3 < tetK.nV ∧
+    (tetK.swapVertex 0 3).edges = [(3, 1), (1, 2), (2, 3), (3, 0), (0, 1), (0, 2)] ∧
+    (tetK.swapVertex 0 3).outHes = [[7, 8, 10], [1, 2, 9], [3, 4, 11], [0, 5, 6]] ∧
+    (tetK.swapVertex 0 3).cacheInvB = true :=
+  ⟨wf_tetK, by decide, by decide, by decide, by decide, by decide⟩
+
+/-- non-vacuity for cells: two tetrahedra glued along a face would need a bigger state; here the
+    single-cell mesh plus one deferred-deleted copy of the cell (slot 1): swapping 0 and 1 moves
+    the live cell to handle 1 and the cache follows -/
+example :
+    let k : Kernel := { tetK with cells := [[1, 3, 5, 7], [1, 3, 5, 7]], cDel := [false, true], nDelC := 1 }
+    k.cacheInvB = true ∧ k.oneCell = true ∧
+    (k.swapCell 0 1).cDel = [true, false] ∧
+    (k.swapCell 0 1).incCell = [none, some 1, none, some 1, none, some 1, none, some 1] ∧
+    (k.swapCell 0 1).cacheInvB = true := by decide
+
+/-- **immediate `delete_cell` in fast mode keeps the cache invariant** (swap with the last cell,
+    unlink, pop), for an in-range handle (`delete_cell_core` asserts it, cc:1362) and `oneCell`.
+    `_partial`: immediate deletion of faces / edges / vertices, the index-shifting (non-fast) mode
+    and `collect_garbage` are not proved; see the end of OVM/Refine/CacheSwap.lean. -/
+theorem immediate_fast_delete_cell_keeps_cache_invariant_partial (k : Kernel) (hd : k.deferred = false)
+    (hf : k.fast = true) (hw : WF k) (h1 : k.oneCell = true) (c : Nat) (hc : c < k.nC) :
+    WF (k.deleteCell c) := wf_deleteCellCore_fast c hd hf hc hw h1
+
+/-- non-vacuity: the tetrahedron in immediate fast mode; deleting its cell pops the slot, clears
+    the four links and leaves every fan a permutation of what it was -/
+example :
+    let k : Kernel := { tetK with deferred := false }
+    k.fast = true ∧ k.cacheInvB = true ∧ (k.deleteCell 0).cells = [] ∧
+    (k.deleteCell 0).incCell = [none, none, none, none, none, none, none, none] ∧
+    (k.deleteCell 0).cacheInvB = true := by decide
 
 end OVM.Props.C02
